@@ -1,2 +1,11 @@
 import FpgoVerif.Props.C18
 /-! `#print axioms` for every property theorem of C18; parsed by `check`. -/
+#print axioms FpgoVerif.C18.C18_spec_prefix
+#print axioms FpgoVerif.C18.C18_spec_ok
+#print axioms FpgoVerif.C18.C18_spec_err
+#print axioms FpgoVerif.C18.C18_spec_total
+#print axioms FpgoVerif.C18.C18_visit
+#print axioms FpgoVerif.C18.C18_self_transport_recurses
+#print axioms FpgoVerif.C18.C18_book
+#print axioms FpgoVerif.C18.C18_book_frame
+#print axioms FpgoVerif.C18.C18_client
